@@ -106,6 +106,17 @@ func init() {
 			// the reply stream
 			budget := 40 + g.pick(1200)
 			ms := g.msgs(1+g.pick(2), 1+g.pick(5), &budget)
+			switch i % 7 {
+			case 5:
+				// payload with long runs of zero bytes: whole cipher blocks of the reply are all zero
+				ms = append(ms, rscp.Message{Tag: rscp.WB_EXTERN_DATA, DataType: rscp.ByteArray, Value: make([]byte, 70+g.pick(120))},
+					rscp.Message{Tag: 0x00800007, DataType: rscp.CString, Value: strings.Repeat("\x00", 64+g.pick(40))})
+			case 6:
+				// payload that carries a complete RSCP frame starting at a block boundary of the outer frame (18 bytes of
+				// header + 7 of the item header + 7 of filler = 32)
+				inner := plainFrame([]rscp.Message{{Tag: rscp.BAT_INDEX, DataType: rscp.UInt16, Value: uint16(g.pick(9))}}, g.chance(0.5), g.time())
+				ms = append([]rscp.Message{{Tag: rscp.WB_EXTERN_DATA, DataType: rscp.ByteArray, Value: append(make([]byte, 7+32*g.pick(2)), inner...)}}, ms...)
+			}
 			plain := plainFrame(ms, g.chance(0.8), g.time())
 			if plain == nil {
 				continue
